@@ -442,6 +442,7 @@ class ConcHarness:
             openers = {op.task for op in w.net.ledger if op.kind.startswith("connect") and op.tr in open_now}
             base["orphan_opened_by_victim"] = vname in openers
         base["write_cancelled"] = any(op.kind == "write" and op.state == "cancelled" for op in w.net.ledger)
+        base["uploads"] = min(2, sum(1 for cs in self.callers if cs.split(":")[0].startswith("up")))     # 2 = two or more flow-controlled uploads share the connection
         if self.trace:
             base["trace"] = True        # the requests carry a suspending trace callback (extra cancellation points inside Trace)
             vics = [c["name"] for c in w.callers if c.get("cancel_delivered")]
